@@ -110,7 +110,11 @@ impl C08 {
                     let mut sig = if interp.rules_dir_set { p.signature() } else { format!("pre-rules:{}", p.signature()) };
                     // clean-up of degenerate / inconsistent / schema-invalid input has a long tail of panic sites with
                     // one family of root causes (see C01/C02): such panics are named after the input class
-                    if let Op::SetMathml(x) = op {
+                    // (a panic site that is itself a listed finding keeps its own name)
+                    static KNOWN: std::sync::OnceLock<Vec<KnownFinding>> = std::sync::OnceLock::new();
+                    let known = KNOWN.get_or_init(load_known_findings);
+                    if known_match(known, "C08", &sig).is_some() {
+                    } else if let Op::SetMathml(x) = op {
                         if let Some(c) = input_class(x) {
                             sig = format!("set_mathml-panic:trigger:{}", c);
                         }
